@@ -76,8 +76,8 @@ def shards(tier, seed):
     T = tier == "thorough"
     out = [{"name": "lengths-%d" % i, "part": i, "exhaustive": "every message length 0..1100"} for i in range(4)]
     out.append({"name": "powers", "kmax": 6 if T else 5})
-    out.append({"name": "content", "count": 3000 if T else 400})
-    out += [{"name": "cli-%d" % i, "count": 150 if T else 20} for i in range(8)]
+    out.append({"name": "content", "count": 10000 if T else 1500})
+    out += [{"name": "cli-%d" % i, "count": 400 if T else 40} for i in range(8)]
     return out
 
 
